@@ -101,6 +101,8 @@ def models(I, files):
             hit = d.pop('ret'); hit = hit if z3.is_expr(hit) else z3.BoolVal(bool(hit)); i = d['i']
             if d['mode'] == 'count':
                 d['acc'] = d['acc'] + z3.If(hit, BV64(1), BV64(0)); d['i'] = i + 1; return [s]
+            if d['mode'] == 'any':          # no fork: the closure has no side effect, so all elements can be evaluated and the results or-ed
+                d['any'] = z3.Or(d.get('any', z3.BoolVal(False)), hit); d['i'] = i + 1; return [s]
             out = []
             if I_.feasible(s, extra=hit):
                 s2 = s.clone(); s2.pc.append(hit)
@@ -109,7 +111,7 @@ def models(I, files):
                 s.pc.append(z3.Not(hit)); d['i'] = i + 1; out.append(s)
             return out
         if d['i'] >= len(elems):
-            I_.do_return(s, {'position': mk_none(), 'any': z3.BoolVal(False), 'count': d.get('acc')}[d['mode']]); return [s]
+            I_.do_return(s, {'position': mk_none(), 'any': z3.simplify(d.get('any', z3.BoolVal(False))), 'count': d.get('acc')}[d['mode']]); return [s]
         fn = I_.resolve_closure(s.heap[d['clos']].ty)
         if fn is None: raise Stuck('closure not found for ' + d['mode'])
         arg = Ref(elems[d['i']])
@@ -243,6 +245,10 @@ def sign_command(R, I, tier):
                 crossf, _ = mk_root(st, 'old', nk, 0)
                 before = stdm.deep_clone(I, st, file0)
                 if nold > 1: st.pc.append(z3.Distinct(old_ids))           # invariant of the file: one signature per key id (maintained by add_old_signatures)
+                # the "every role lists at least `threshold` key ids" loop forks per role: snapshot and timestamp are taken as stable here
+                # (their handling is the same code as for targets, which stays symbolic together with root)
+                for rn_ in ('Snapshot', 'Timestamp'):
+                    ids_, thr_ = role_ids(st, file0, rn_); st.pc.append(z3.ULE(thr_, len(ids_)))
                 ignore = z3.Bool('ignore_threshold')
                 own_ids, own_thr = role_ids(st, file0, 'Root'); other_ids, _ = role_ids(st, crossf, 'Root')
                 holder_ids = other_ids if cross else own_ids
@@ -324,7 +330,8 @@ def check(R, tier):
     I = R.interp('tuftool', also=('tough',)); install_world(I)
     R.bounds.update({'file state': 'arbitrary version / expiry / thresholds / key table; 2 key ids per role (symbolic, may coincide); 0..2 (quick) / 0..3 (thorough) signatures already in the file, one per key id',
                      'commands': 'bump-version, expire, set-version, set-threshold <each role>, remove-key <id> [each role], sign with 0..2/3 usable keys, with and without --cross-sign / --ignore-threshold',
-                     'sequences': 'one step from an arbitrary file state (inductive); sequences of <= 12 real invocations in the native sweep'})
+                     'sequences': 'one step from an arbitrary file state (inductive); sequences of <= 12 real invocations in the native sweep',
+                     'sign: role thresholds': 'root and targets arbitrary; snapshot and timestamp assumed to list at least `threshold` key ids (same loop body as targets)'})
     R.assumptions += ['load_file / write_file (tuftool main.rs: temp file + persist) either fail without effect or read / atomically replace the file', 'SignedRole::new: C10 contract (signatures only by distinct keys listed for the role in the given key holder)',
                       'signatures already in the file are over the current content (every content-changing subcommand removes them: checked here) and carry one signature per key id',
                       'init, add-key and gen-rsa-key are covered by the native sweep only (key parsing / openssl)']
